@@ -62,11 +62,22 @@ theorem Sched.wf_plain {c : Dag} {P : Paths} {L : List (NodeId × Op)} (g : Good
   rw [hpo]
   exact ⟨wiredOp_wf (g.inv.op_wf i o' hm), plainOp'_wiredOp (hpl i o' hm)⟩
 
-theorem Sched.input_not_key {c : Dag} {P : Paths} {L : List (NodeId × Op)} (g : Good c P) (hpl : AllPlain c) (hS : Sched c P L) :
+/-- no operation of the circuit is filed under the key "Input" (class name `Input`, or a user label "Input"): all the depth
+    theorems need — weaker than `AllPlain`, it admits arbitrary other user labels such as the solver's "Fixed" -/
+def NoInputKey (c : Dag) : Prop := ∀ i o, (NodeId.op i, o) ∈ c.nodes → "Input" ∉ o.indexKeys
+
+theorem noInputKey_of_allPlain {c : Dag} {P : Paths} (g : Good c P) (hpl : AllPlain c) : NoInputKey c :=
+  fun i o hm => Dag.input_not_key (g.inv.op_wf i o hm) (hpl i o hm).toPlainOp
+
+theorem Sched.input_not_key_of {c : Dag} {P : Paths} {L : List (NodeId × Op)} (hk : NoInputKey c) (hS : Sched c P L) :
     ∀ p ∈ L, "Input" ∉ p.2.indexKeys := by
   intro p hp
-  obtain ⟨h1, h2⟩ := hS.wf_plain g hpl p.2 (List.mem_map.mpr ⟨p, hp, rfl⟩)
-  exact Dag.input_not_key h1 h2.toPlainOp
+  obtain ⟨i, o, _, hm, hpo⟩ := hS.op_node hp
+  rw [hpo, wiredOp_indexKeys]
+  exact hk i o hm
+
+theorem Sched.input_not_key {c : Dag} {P : Paths} {L : List (NodeId × Op)} (g : Good c P) (hpl : AllPlain c) (hS : Sched c P L) :
+    ∀ p ∈ L, "Input" ∉ p.2.indexKeys := hS.input_not_key_of (noInputKey_of_allPlain g hpl)
 
 /-! ## counting metrics -/
 
@@ -280,18 +291,24 @@ theorem maxEmitEffDepth_eq_spec_sched {c : Dag} {P : Paths} {L : List (NodeId ×
 
 /-- **`register_depth` on any circuit satisfying DagInv**: `calculate_reg_depth(t)` — the literal `_max_depth(out)` recursion
     with the model's fuel — returns the ASAP depth of every register of the type on the scheduled operation list -/
-theorem calculateRegDepth_eq_spec_sched {c : Dag} {P : Paths} {L : List (NodeId × Op)} (g : Good c P) (hpl : AllPlain c)
+theorem calculateRegDepth_eq_spec_sched_of {c : Dag} {P : Paths} {L : List (NodeId × Op)} (g : Good c P) (hk : NoInputKey c)
     (hS : Sched c P L) (t : RegType) :
     c.calculateRegDepth t = .ok ((List.range (c.regs t)).map (fun i => (Spec.regDepth (L.map (·.2)) ⟨t, i⟩ : Int))) := by
   unfold calculateRegDepth
   apply mapM_range_ok
   intro i hi
   have hl : c.live ⟨t, i⟩ := hi
-  apply maxDepth_of_hasDepth ((sched_depth g hS (hS.input_not_key g hpl)).2 _ hl)
+  apply maxDepth_of_hasDepth ((sched_depth g hS (hS.input_not_key_of hk)).2 _ hl)
   have hb := regDepth_le_length (L.map (·.2)) ⟨t, i⟩
   have hlt := hS.length_lt g hl
   rw [List.length_map] at hb
   push_cast; omega
+
+/-- … in particular on circuits with plain operations -/
+theorem calculateRegDepth_eq_spec_sched {c : Dag} {P : Paths} {L : List (NodeId × Op)} (g : Good c P) (hpl : AllPlain c)
+    (hS : Sched c P L) (t : RegType) :
+    c.calculateRegDepth t = .ok ((List.range (c.regs t)).map (fun i => (Spec.regDepth (L.map (·.2)) ⟨t, i⟩ : Int))) :=
+  calculateRegDepth_eq_spec_sched_of g (noInputKey_of_allPlain g hpl) hS t
 
 end Metrics
 end Graphiq
